@@ -165,7 +165,7 @@ PROPS.update({
         "technique": "Verus contracts shared by the bulk and single selection routines; bounded enumeration for the quantile / per-axis glue",
         "design_ref": "DESIGN.md 4 (C18)",
         "verus": [("sort", "N")],
-        "enum": [{"name": "select_many"}, {"name": "quantiles"}, {"name": "means"}],
+        "enum": [{"name": "select_many", "abort_props": ["C02"]}, {"name": "quantiles", "abort_props": ["C01"]}, {"name": "means", "abort_props": ["C06"]}],
         "assumptions": [A_ND, A_RNG, A_ORD, A_STD, A_VERUS, A_EXTRACT, A_ENUM, BOUNDED_NOTE],
         "not_decided": ["central_moments(p)[k] == central_moment(k) bit for bit", "per-axis weighted variance / standard deviation (floats)"],
     },
@@ -176,7 +176,7 @@ PROPS.update({
         "technique": "Verus multiset postconditions + frame through the trusted swap/sub-view contracts; bounded guard-element enumeration for the n-D forms",
         "design_ref": "DESIGN.md 4 (C03)",
         "verus": [("sort", "N"), ("nan", "N")],
-        "enum": [{"name": "select"}, {"name": "quantiles"}, {"name": "nanview"}, {"name": "skipnan"}],
+        "enum": [{"name": "partition", "abort_props": ["C15"]}, {"name": "select", "abort_props": ["C02"]}, {"name": "quantiles", "abort_props": ["C01"]}, {"name": "nanview", "abort_props": ["C04"]}, {"name": "skipnan", "abort_props": ["C14", "C04"]}],
         "assumptions": [A_ND, A_RNG, A_ORD, A_STD, A_VERUS, A_EXTRACT, A_ENUM, BOUNDED_NOTE],
         "not_decided": [],
     },
@@ -244,7 +244,7 @@ PROPS.update({
         "technique": "layout-free trusted interface in the Verus shim + bounded pairwise enumeration on the real crate",
         "design_ref": "DESIGN.md 4 (C20)",
         "verus": [("nan", "N")],
-        "enum": [{"name": "layouts"}, {"name": "nanview"}],
+        "enum": [{"name": "layouts"}, {"name": "nanview", "abort_props": ["C04"]}],
         "assumptions": [A_ND, A_VERUS, A_EXTRACT, A_ENUM, BOUNDED_NOTE],
         "not_decided": ["floating-point sums whose value depends on summation order (roundoff bound)"],
         "rule": "one case per (shape, data, layout) pair against the canonical C-order array; non-trivial = a non-canonical layout with at least 2 elements",
